@@ -7,6 +7,13 @@
                   of the JSON form.  Checked: text = TextOf(value) (layout stated
                   in Text.tla), parse succeeded, parsed-back == value under
                   Equiv, JSON = quoted text where that is the JSON form.
+                  Values at the limits (Text!LimitCases) carry their descriptor;
+                  within the limits every form must parse back (agreement with
+                  the binary codec), beyond them a form may refuse but not change.
+   ev = "cur"     one currency in every printed form (unit form, exact form, JSON)
+                  through every entry point that must accept it.
+   ev = "time"    one Unix second through the forms of an after() policy (string,
+                  JSON, binary) and as RFC 3339 string of JSON documents.
    ev = "jsonrt"  a value of one of the big JSON types was marshalled,
                   unmarshalled, compared (on the Go side, recording which
                   normalisation rules the comparison needed) and marshalled
@@ -19,21 +26,76 @@ EXTENDS Text, TraceLib, Json
 Trace == ndJsonDeserialize("trace.ndjson")
 N == Len(Trace)
 
+\* every line names the family of its limit descriptor ("none" for the others) and carries
+\* the descriptor itself only when there is one
+LimOf(t)   == IF t.fam = "none" THEN NoLimit ELSE t.lim
+IsLimit(d) == d = NoLimit \/ d \in LimitCases
+BinOK(b)   == b \in {"ok", "n/a"}            \* "refused", "changed": the binary codec does not round-trip the value
+
+\* ev = "text".  lim: the limit descriptor the value realises (NoLimit for the others);
+\* layout: the value lies in the domain for which Text.tla states the layout;
+\* bin: what the binary codec of the real code did with the value;  json: the JSON document,
+\* logged only for the kinds whose JSON form is the quoted text (TextJSONKinds).
 TextLine(t, l) ==
-  IF ~WellFormed(t.kind, t.val)
+  IF ~WellFormedS(t.kind, t.val, FALSE)
   THEN Reject(l, "INFRA value outside the domain of the specification")
-  ELSE
-  /\ Check(t.text = TextOf(t.kind, t.val), l, "text-layout")
-  /\ IF t.hasStr THEN Check(t.str = t.text, l, "string-differs") ELSE TRUE
-  /\ Check(t.ok, l, "text-unparsed")
+  ELSE IF t.layout # WellFormedS(t.kind, t.val, TRUE)
+  THEN Reject(l, "INFRA layout flag does not match the layout domain of the specification")
+  ELSE IF ~IsLimit(LimOf(t)) \/ ~Realises(LimOf(t), t.kind, t.val)
+  THEN Reject(l, "INFRA the value is not the limit value its descriptor describes")
+  ELSE LET adm == Admitted(t.kind, t.val) IN
+  /\ Check(LimOf(t).fam = "none" \/ LimOf(t).within = adm, l, "INFRA descriptor and limit constants disagree")
+  /\ Check(adm => BinOK(t.bin), l, "INFRA-BIN the binary codec does not round-trip a value within the stated limits")
+  /\ Check(~adm => t.bin # "ok", l, "INFRA-BIN the binary codec round-trips a value beyond the stated limits")
+  /\ IF t.layout THEN Check(t.text = TextOf(t.kind, t.val), l, "text-layout") ELSE TRUE
+  /\ IF t.hasStr THEN Check(t.strSame, l, "string-differs") ELSE TRUE     \* String() = MarshalText(), compared by the harness
+  \* agreement: admitted (or actually round-tripped by the binary codec) => parses back; else refuse or same
+  /\ Check((adm \/ t.bin = "ok") => t.ok, l, "text-unparsed")
   /\ IF t.ok THEN Check(Equiv(t.kind, t.val, t.back), l, "text-value-changed") ELSE TRUE
-  /\ Check(t.jok, l, "json-unparsed")
+  /\ Check((adm \/ t.bin = "ok") => t.jok, l, "json-unparsed")
   /\ IF t.jok THEN Check(Equiv(t.kind, t.val, t.jback), l, "json-value-changed") ELSE TRUE
   /\ IF t.kind \in TextJSONKinds THEN Check(t.json = JSONString(t.text), l, "json-layout") ELSE TRUE
 
+\* ev = "cur": one currency in every printed form, each fed to every entry point that
+\* must accept it.  forms: sequence of [f, e, text, ok, back].
+CurLine(t, l) ==
+  IF ~(IsNat(t.val.n) /\ Le(t.val.n, MaxCurrency))
+  THEN Reject(l, "INFRA value outside the domain of the specification")
+  ELSE IF ~IsLimit(LimOf(t)) \/ ~Realises(LimOf(t), "Currency", t.val)
+  THEN Reject(l, "INFRA the value is not the limit value its descriptor describes")
+  ELSE IF {<<t.forms[i].f, t.forms[i].e>> : i \in DOMAIN t.forms}
+            # UNION {{<<f, e>> : e \in CurEntries(f)} : f \in CurForms}
+  THEN Reject(l, "INFRA not every printed form was sent to every entry point")
+  ELSE \A i \in DOMAIN t.forms : LET r == t.forms[i] IN
+         /\ Check(r.text = CurFormText(r.f, t.val.n), l, "currency-layout:" \o r.f)
+         /\ Check(r.ok, l, "currency-unparsed:" \o r.f \o ":" \o r.e)
+         /\ IF r.ok THEN Check(r.back = t.val.n, l, "currency-value-changed:" \o r.f \o ":" \o r.e) ELSE TRUE
+
+\* ev = "time": one Unix second in the forms of an after() policy and as the RFC 3339
+\* string of JSON documents.  forms: sequence of [f, c (carrier type), printed, text, ok, bneg, bn].
+TimeLine(t, l) ==
+  LET v == Unix(t.val.neg, t.val.n) IN
+  IF ~IsUnix64(v.neg, v.n)
+  THEN Reject(l, "INFRA value outside the domain of the specification")
+  ELSE IF ~IsLimit(LimOf(t)) \/ ~Realises(LimOf(t), "Time", t.val)
+  THEN Reject(l, "INFRA the value is not the limit value its descriptor describes")
+  ELSE IF ~(TimeForms \subseteq {t.forms[i].f : i \in DOMAIN t.forms})
+  THEN Reject(l, "INFRA not every form of the timestamp was exercised")
+  ELSE \A i \in DOMAIN t.forms : LET r == t.forms[i]  adm == TimeAdmitted(r.f, v) IN
+         /\ IF r.printed THEN Check(TimeFormOK(r.f, v, r.text), l, "time-layout:" \o r.f \o ":" \o r.c) ELSE TRUE
+         /\ Check(adm => (r.printed /\ r.ok), l, "time-unparsed:" \o r.f \o ":" \o r.c)
+         /\ IF r.printed /\ r.ok
+            THEN Check(r.bneg = v.neg /\ r.bn = v.n, l, "time-value-changed:" \o r.f \o ":" \o r.c) ELSE TRUE
+
+\* ev = "jsonrt".  lim: the limit descriptor of the value placed inside (NoLimit: none);
+\* beyond a limit the document may fail to marshal or to parse, but not change.
 JsonLine(t, l) ==
-  /\ Check(t.mok, l, "marshal-failed")
-  /\ IF t.mok THEN Check(t.uok, l, "json-unparsed") ELSE TRUE
+  IF ~IsLimit(LimOf(t)) THEN Reject(l, "INFRA unknown limit descriptor")
+  ELSE LET adm == LimOf(t).within IN
+  /\ Check(adm => BinOK(t.bin), l, "INFRA-BIN the binary codec does not round-trip a value within the stated limits")
+  /\ Check(~adm => t.bin # "ok", l, "INFRA-BIN the binary codec round-trips a value beyond the stated limits")
+  /\ Check(adm => t.mok, l, "marshal-failed")
+  /\ IF t.mok THEN Check(adm => t.uok, l, "json-unparsed") ELSE TRUE
   /\ IF t.mok /\ t.uok
      THEN /\ Check(t.eq, l, "json-value-changed")
           /\ Check(t.same, l, "json-remarshal-differs")
@@ -49,6 +111,8 @@ UpdLine(t, l) ==
 Line(l) == LET t == Trace[l] IN
   CASE t.ev = "text"   -> TextLine(t, l)
     [] t.ev = "jsonrt" -> JsonLine(t, l)
+    [] t.ev = "cur"    -> CurLine(t, l)
+    [] t.ev = "time"   -> TimeLine(t, l)
     [] t.ev = "upd"    -> UpdLine(t, l)
     [] OTHER -> Reject(l, "INFRA unknown event")
 
